@@ -90,6 +90,9 @@ def e2e_suite(ctx: Ctx, n: int) -> None:
             fws: Any = (ctx.rng.choice(["pa", "pd", "py"]),)
             spec = S.gen_spec(ctx.rng, max_feats=ctx.rng.choice([3, 6, 9]), frameworks=fws, allow_options=True)
             layout = "single-fw"
+        elif r < 0.7:
+            spec = S.gen_chain_spec(ctx.rng)
+            layout = "multi-fw-chain"
         elif r < 0.85:
             fws = ctx.rng.choice([("pa", "pd"), ("pa", "py"), ("pd", "py"), ("pa", "pd", "py")])
             spec = S.gen_spec(ctx.rng, max_feats=6, frameworks=fws, allow_multi_fw=True, allow_options=False, single_parent=True)
@@ -124,6 +127,8 @@ def e2e_suite(ctx: Ctx, n: int) -> None:
                 fclass = "threading-overlapping-steps-on-shared-cfw"
             elif mode == "mp" and any(st["kind"] == "tfs" and st["from"] != "PyArrowTable" for st in exp["steps"]):
                 fclass = "multiprocessing-transform-step-from-non-arrow-producer"
+            elif mode == "mp" and S.mp_unuploaded_tfs_source(exp):
+                fclass = "multiprocessing-transform-source-not-uploaded"
             case = {"spec": spec, "mode": mode}
             ctx.case("e2e", case, nontriv, layout=layout, mode=mode, outcome="error" if rr.error else "ok", steps=len(exp["steps"]))
             if rr.timed_out:
@@ -229,6 +234,27 @@ def api_suite(ctx: Ctx, n: int) -> None:
                 ctx.violation("api_e2e", case, f"value of {nm} differs from the api_data / reference evaluation", got.get(nm), ref[nm], finding_class=fclass)
 
 
+def multicol_suite(ctx: Ctx) -> None:
+    """Provider helper that consumer groups use to find the columns of a multi-column input feature
+    (FeatureGroup.resolve_multi_column_feature): exact name, else every column `name~*`, nothing else."""
+    from mloda.core.abstract_plugins.feature_group import FeatureGroup
+
+    stems = ["emb", "emb_norm", "e", "x", "x1", "embx"]
+    for _ in range(ctx.budget(300, 5000)):
+        cols = set()
+        for st in ctx.rng.sample(stems, ctx.rng.randint(1, 4)):
+            if ctx.rng.random() < 0.4:
+                cols.add(st)
+            for i in range(ctx.rng.randint(0, 3)):
+                cols.add(f"{st}~{i}")
+        name = ctx.rng.choice(stems)
+        got = FeatureGroup.resolve_multi_column_feature(name, set(cols))
+        want = [name] if name in cols else (sorted(c for c in cols if c.startswith(name + "~")) or [name])
+        ctx.case("multicol_resolve", {"name": name, "cols": sorted(cols)}, any(c.startswith(name) and not c.startswith(name + "~") and c != name for c in cols))
+        if list(got) != want:
+            ctx.violation("multicol_resolve", {"name": name, "cols": sorted(cols)}, "columns resolved for a multi-column input feature are not exactly its own name~* columns", list(got), want)
+
+
 def run(ctx: Ctx) -> None:
     ctx.extra["rule"] = (
         "e2e: seeded link-free request DAGs (derived features with 1-3 parents over 1-3 generated groups and a root group, option variants, "
@@ -239,6 +265,7 @@ def run(ctx: Ctx) -> None:
     )
     e2e_suite(ctx, ctx.budget(160, 3000))
     api_suite(ctx, ctx.budget(80, 1200))
+    multicol_suite(ctx)
     S.stop_flight_server()
 
 
